@@ -249,7 +249,7 @@ def run_case_files(name, preamble, case_terms, checker, per_file=300, timeout=90
             continue
         flat = " ".join(out.split())
         m = re.search(r"= (\[[^\]]*\]|nil)\s*: list nat", flat)
-        m2 = re.search(r"= (\d+)\s*: nat", flat)
+        m2 = re.search(r"= (\d+)(?:%nat)?\s*: nat", flat)
         if not m or not m2:
             errors.append(f"{os.path.basename(files[k])}: unparsable output\n{out[-2000:]}")
             continue
